@@ -313,6 +313,200 @@ class DefInt(IntVal):
     def cparam(self, lang): return "int %s = %d" % (self.n, self.default)
 
 
+DIMS = [0, 1, 3]
+RA = [10, 11, 12, 13, 14, 15, 16, 17]
+VSZ = [0, 1, 3, 4]
+CARR = [[], ["ab  "], ["ab  ", "    ", "wxyz"]]
+
+
+class DimArg(K):
+    """small extent used by +dimension(name) of a result or of another argument"""
+    nvals = 3
+
+    def yaml(self): return "int %s" % self.n
+    def cparam(self, lang): return "int %s" % self.n
+    def body(self, lang): return ['printf(" %s=i:%%d", %s);' % (self.n, self.n)]
+    def factual(self, r): return "%d_C_INT" % DIMS[r % 3]
+    def lib_tokens(self, r, cnt, env): return ["%s=i:%d" % (self.n, DIMS[r % 3])]
+
+
+class ArrOut(K):
+    """int *a +intent(out)+rank(1) with implied extent (zero-length included)"""
+    nvals = 3
+
+    def yaml(self): return "int *%s +intent(out)+rank(1), int n%s +implied(size(%s))" % (self.n, self.n, self.n)
+    def cparam(self, lang): return "int *%s, int n%s" % (self.n, self.n)
+    def body(self, lang):
+        return ['printf(" n%s=i:%%d", n%s);' % (self.n, self.n),
+                '{ int i_; for (i_ = 0; i_ < n%s; i_++) %s[i_] = 100 * cnt + i_; }' % (self.n, self.n)]
+    def fdecl(self): return ["integer(C_INT), allocatable :: %s(:)" % self.n]
+    def fset(self, r):
+        return ["if (allocated(%s)) deallocate(%s)" % (self.n, self.n), "allocate(%s(%d))" % (self.n, DIMS[r % 3]), "%s = -9" % self.n]
+    def fprint(self): return ["call parr('%s', %s)" % (self.n, self.n)]
+    def lib_tokens(self, r, cnt, env): return ["n%s=i:%d" % (self.n, DIMS[r % 3])]
+    def f_tokens(self, r, cnt, env): return ["%s=a:%s" % (self.n, "".join("%d," % (100 * cnt + i) for i in range(DIMS[r % 3])))]
+
+
+class ArrAllocOut(K):
+    """const int *in +rank(1), int *out +intent(out)+deref(allocatable)+dimension(size(in)), int n +implied(size(in))"""
+    nvals = 3
+
+    def yaml(self):
+        n = self.n
+        return ("const int *i%s +rank(1), int *%s +intent(out)+deref(allocatable)+dimension(size(i%s)), "
+                "int n%s +implied(size(i%s))" % (n, n, n, n, n))
+    def cparam(self, lang): return "const int *i%s, int *%s, int n%s" % (self.n, self.n, self.n)
+    def body(self, lang):
+        return ['printf(" n%s=i:%%d i%s=a:", n%s);' % (self.n, self.n, self.n),
+                '{ int i_; for (i_ = 0; i_ < n%s; i_++) { printf("%%d,", i%s[i_]); %s[i_] = i%s[i_] + 1; } }' % (self.n, self.n, self.n, self.n)]
+    def fdecl(self): return ["integer(C_INT), allocatable :: i%s(:)" % self.n, "integer(C_INT), allocatable :: %s(:)" % self.n]
+    def fset(self, r):
+        a = ARRS[r % 3]
+        return ["if (allocated(i%s)) deallocate(i%s)" % (self.n, self.n), "if (allocated(%s)) deallocate(%s)" % (self.n, self.n),
+                "allocate(i%s(%d))" % (self.n, len(a))] + ["i%s(%d) = %d" % (self.n, i + 1, v) for i, v in enumerate(a)]
+    def factual(self, r): return "i%s, %s" % (self.n, self.n)
+    def fprint(self): return ["call parr('%s', %s)" % (self.n, self.n)]
+    def lib_tokens(self, r, cnt, env):
+        a = ARRS[r % 3]
+        return ["n%s=i:%d" % (self.n, len(a)), "i%s=a:%s" % (self.n, "".join("%d," % v for v in a))]
+    def f_tokens(self, r, cnt, env): return ["%s=a:%s" % (self.n, "".join("%d," % (v + 1) for v in ARRS[r % 3]))]
+
+
+class PtrPtrOut(K):
+    """int n, int **p +intent(out)+dimension(n): a Fortran pointer to library memory with extent n"""
+    no_cfi = True   # no `_cfi` statement entry: the open finding's territory
+    nvals = 3
+
+    def yaml(self): return "int n%s, int **%s +intent(out)+dimension(n%s)" % (self.n, self.n, self.n)
+    def cparam(self, lang): return "int n%s, int **%s" % (self.n, self.n)
+    def body(self, lang): return ['printf(" n%s=i:%%d", n%s);' % (self.n, self.n), "*%s = RA;" % self.n]
+    def fdecl(self): return ["integer(C_INT), pointer :: %s(:)" % self.n]
+    def fset(self, r): return ["nullify(%s)" % self.n]
+    def factual(self, r): return "%d_C_INT, %s" % (DIMS[r % 3], self.n)
+    def fprint(self): return ["call parr('%s', %s)" % (self.n, self.n)]
+    def lib_tokens(self, r, cnt, env): return ["n%s=i:%d" % (self.n, DIMS[r % 3])]
+    def f_tokens(self, r, cnt, env): return ["%s=a:%s" % (self.n, "".join("%d," % v for v in RA[:DIMS[r % 3]]))]
+
+
+class CharArrIn(K):
+    """char **names +intent(in) from character(len=4) :: names(n), n = 0, 1, 3"""
+    no_cfi = True   # no `_cfi` statement entry: the open finding's territory
+    nvals = 3
+
+    def yaml(self): return "char **%s +intent(in), int z%s +implied(size(%s))" % (self.n, self.n, self.n)
+    def cparam(self, lang): return "char **%s, int z%s" % (self.n, self.n)
+    def body(self, lang):
+        return ['printf(" z%s=i:%%d %s=S:", z%s);' % (self.n, self.n, self.n),
+                '{ int i_; for (i_ = 0; i_ < z%s; i_++) printf("[%%s]", %s[i_]); }' % (self.n, self.n)]
+    def fdecl(self): return ["character(len=4), allocatable :: %s(:)" % self.n]
+    def fset(self, r):
+        a = CARR[r % 3]
+        return ["if (allocated(%s)) deallocate(%s)" % (self.n, self.n), "allocate(%s(%d))" % (self.n, len(a))] + \
+               ["%s(%d) = %s" % (self.n, i + 1, fstr(v)) for i, v in enumerate(a)]
+    def lib_tokens(self, r, cnt, env):
+        a = CARR[r % 3]
+        return ["z%s=i:%d" % (self.n, len(a)), "%s=S:%s" % (self.n, "".join("[%s]" % rtrim(v) for v in a))]
+
+
+VDEST = [0, 1, 3, 5]
+
+
+class VecIn(K):
+    no_cfi = True   # no `_cfi` statement entry: the open finding's territory
+    cxx_only = True
+    nvals = 3
+
+    def yaml(self): return "const std::vector<int> &%s" % self.n
+    def cparam(self, lang): return "const std::vector<int> &%s" % self.n
+    def body(self, lang):
+        return ['printf(" %s=V:%%d:", (int) %s.size());' % (self.n, self.n),
+                '{ size_t i_; for (i_ = 0; i_ < %s.size(); i_++) printf("%%d,", %s[i_]); }' % (self.n, self.n)]
+    def fdecl(self): return ["integer(C_INT), allocatable :: %s(:)" % self.n]
+    def fset(self, r):
+        a = ARRS[r % 3]
+        return ["if (allocated(%s)) deallocate(%s)" % (self.n, self.n), "allocate(%s(%d))" % (self.n, len(a))] + \
+               ["%s(%d) = %d" % (self.n, i + 1, v) for i, v in enumerate(a)]
+    def lib_tokens(self, r, cnt, env):
+        a = ARRS[r % 3]
+        return ["%s=V:%d:%s" % (self.n, len(a), "".join("%d," % v for v in a))]
+
+
+class VecOut(K):
+    """std::vector<int> & +intent(out) into caller arrays of extent 0, 1, 3, 5; vectors of size 0, 1, 3, 4"""
+    no_cfi = True   # no `_cfi` statement entry: the open finding's territory
+    cxx_only = True
+    nvals = 8
+    alloc = False
+
+    def yaml(self): return "std::vector<int> &%s +intent(out)%s" % (self.n, "+deref(allocatable)" if self.alloc else "")
+    def cparam(self, lang): return "std::vector<int> &%s" % self.n
+    def body(self, lang):
+        return ['{ static const int vs_[] = {%s}; %s.assign(RA, RA + vs_[cnt %% 4]); }' % (", ".join(map(str, VSZ)), self.n)]
+    def fdecl(self): return ["integer(C_INT), allocatable :: %s(:)" % self.n]
+    def _m(self, r): return [0, 3, 1, 0, 3, 1, 3, 5][r % 8]   # vs vector sizes 0,1,3,4,0,1,3,4: empty, longer, shorter, exact
+    def fset(self, r):
+        return ["if (allocated(%s)) deallocate(%s)" % (self.n, self.n), "allocate(%s(%d))" % (self.n, self._m(r)), "%s = -9" % self.n]
+    def fprint(self): return ["call parr('%s', %s)" % (self.n, self.n)]
+    def f_tokens(self, r, cnt, env):
+        l = RA[:VSZ[cnt % 4]]
+        if self.alloc:
+            out = l
+        else:
+            m = self._m(r)
+            k = min(m, len(l))
+            out = l[:k] + [-9] * (m - k)
+        return ["%s=a:%s" % (self.n, "".join("%d," % v for v in out))]
+
+
+class VecOutAlloc(VecOut):
+    alloc = True
+
+
+class VecInout(K):
+    no_cfi = True   # no `_cfi` statement entry: the open finding's territory
+    cxx_only = True
+    nvals = 3
+    alloc = False
+
+    def yaml(self): return "std::vector<int> &%s +intent(inout)%s" % (self.n, "+deref(allocatable)" if self.alloc else "")
+    def cparam(self, lang): return "std::vector<int> &%s" % self.n
+    def body(self, lang):
+        return ['printf(" %s=V:%%d:", (int) %s.size());' % (self.n, self.n),
+                '{ size_t i_; for (i_ = 0; i_ < %s.size(); i_++) { printf("%%d,", %s[i_]); %s[i_] *= 3; } }' % (self.n, self.n, self.n),
+                "%s.push_back(77);" % self.n]
+    def fdecl(self): return ["integer(C_INT), allocatable :: %s(:)" % self.n]
+    def fset(self, r):
+        a = ARRS[r % 3]
+        return ["if (allocated(%s)) deallocate(%s)" % (self.n, self.n), "allocate(%s(%d))" % (self.n, len(a))] + \
+               ["%s(%d) = %d" % (self.n, i + 1, v) for i, v in enumerate(a)]
+    def fprint(self): return ["call parr('%s', %s)" % (self.n, self.n)]
+    def lib_tokens(self, r, cnt, env):
+        a = ARRS[r % 3]
+        return ["%s=V:%d:%s" % (self.n, len(a), "".join("%d," % v for v in a))]
+    def f_tokens(self, r, cnt, env):
+        a = ARRS[r % 3]
+        new = [3 * v for v in a] + [77]
+        out = new if self.alloc else new[:len(a)]
+        return ["%s=a:%s" % (self.n, "".join("%d," % v for v in out))]
+
+
+class VecInoutAlloc(VecInout):
+    alloc = True
+
+
+class TplArg(K):
+    """`T tv` of `template<typename T>` instantiated for int and double; reached through the generic name"""
+    cxx_only = True
+    nvals = 4
+    VALS = [("7_C_INT", "i:7"), ("2.5_C_DOUBLE", "d:2.5"), ("-3_C_INT", "i:-3"), ("0.0_C_DOUBLE", "d:0.0")]
+
+    def yaml(self): return "T %s" % self.n
+    def cparam(self, lang): return "T %s" % self.n
+    def body(self, lang): return ['pv_(" %s=", %s);' % (self.n, self.n)]
+    def factual(self, r): return self.VALS[r % 4][0]
+    def lib_tokens(self, r, cnt, env): return ["%s=%s" % (self.n, self.VALS[r % 4][1])]
+
+
 GEN_DBLS = ["2.5", "-0.25", "1024.0", "0.0"]
 
 
@@ -353,8 +547,9 @@ class GenArr(K):
         return ["n%s=i:%d" % (self.n, len(a)), "%s=a:%s" % (self.n, "".join("%d," % v for v in a))]
 
 
-ARG_KINDS_C = [IntVal, DblVal, BoolVal, BoolOut, BoolInout, IntOut, IntInout, HiddenOut, ArrIn, ArrInout, CstrIn, CstrOut, CstrInout]
-ARG_KINDS_CXX = ARG_KINDS_C + [IntRefOut, StringIn, StringOut, StringInout]
+ARG_KINDS_C = [IntVal, DblVal, BoolVal, BoolOut, BoolInout, IntOut, IntInout, HiddenOut, ArrIn, ArrInout, ArrOut, ArrAllocOut,
+               PtrPtrOut, CharArrIn, CstrIn, CstrOut, CstrInout]
+ARG_KINDS_CXX = ARG_KINDS_C + [IntRefOut, StringIn, StringOut, StringInout, VecIn, VecOut, VecOutAlloc, VecInout, VecInoutAlloc]
 
 # ------------------------------------------------------------------ results
 # (tag, yaml type prefix, attrs, C return type, C return expression, Fortran decl, print call, expected fn(cnt), cxx_only)
@@ -373,9 +568,18 @@ RESULTS = {
                    "call pstrl('rv', rv)", lambda c: "rv=s:%d[%s]" % (len(RES_STR[c % 4]), RES_STR[c % 4]), True),
     "string_len": ("const std::string &", " +len(30)", "const std::string &", "RSS[cnt % 4]", "character(len=30) :: rv",
                    "call pstr('rv', rv)", lambda c: "rv=s:[%s]" % ((RES_STR[c % 4] + " " * 30)[:30]), True),
+    # pointer / allocatable native results through the context struct: `{dim}` is the DimArg of the function
+    "iptr": ("int *", " +dimension({dim})+deref(pointer)", "int *", "RA", "integer(C_INT), pointer :: rv(:)", "call parr('rv', rv)",
+             lambda c: "rv=a:%s" % "".join("%d," % v for v in RA[:DIMS[c % 3]]), False, "=>"),
+    "ialloc": ("int *", " +dimension({dim})+deref(allocatable)", "int *", "RA", "integer(C_INT), allocatable :: rv(:)",
+               "call parr('rv', rv)", lambda c: "rv=a:%s" % "".join("%d," % v for v in RA[:DIMS[c % 3]]), False, "="),
+    "vecres": ("std::vector<int>", "", "std::vector<int>", "std::vector<int>(RA, RA + VS[cnt % 4])",
+               "integer(C_INT), allocatable :: rv(:)", "call parr('rv', rv)",
+               lambda c: "rv=a:%s" % "".join("%d," % v for v in RA[:VSZ[c % 4]]), True, "="),
 }
 RES_C = ["void", "void", "int", "double", "bool", "cstr", "cstr_len"]
 RES_CXX = RES_C + ["string", "string_ref", "string_len"]
+RES_DIM = ["iptr", "ialloc"]
 
 
 class Func:
@@ -383,12 +587,30 @@ class Func:
         self.name, self.res, self.args = name, res, args
         self.overload_of = overload_of
 
+    def is_template(self):
+        return any(isinstance(a, TplArg) for a in self.args)
+
+    def tagfor(self, r):
+        """suffix of the library's trace line: which overload / instantiation was entered"""
+        if self.is_template():
+            return "/i" if r % 2 == 0 else "/d"
+        return ("/" + self.overload_of) if self.overload_of else ""
+
     def generic_list(self):
         """fortran_generic entries (only the argument that varies is listed; Shroud copies the others)"""
         g = [a for a in self.args if hasattr(a, "gen")]
         if not g:
             return None
         return [{"decl": d % g[0].n, "function_suffix": sfx} for d, sfx in g[0].gen]
+
+    def cfi_ok(self):
+        """can this function be wrapped with F_CFI=true?  Kinds that need the context / size arguments have no
+        `_cfi` statement entry (theorem context_kinds_have_no_cfi_entry; known finding
+        c01:F_CFI-generation-fails:context-or-vector-argument)"""
+        if any(getattr(a, "no_cfi", False) for a in self.args) or self.res == "vecres":
+            return False
+        stringy = any(isinstance(a, (CstrIn, CstrOut, CstrInout, StringIn, StringOut, StringInout)) for a in self.args)
+        return not (self.res in ("iptr", "ialloc") and stringy)
 
     def cxx_only(self):
         return any(a.cxx_only for a in self.args) or (self.res != "void" and RESULTS[self.res][7]) or self.overload_of is not None
@@ -440,9 +662,15 @@ def fixed_spec(cxx):
     for i, res in enumerate(dict.fromkeys(RES_CXX if cxx else RES_C)):
         if res != "void":
             funcs.append(Func("r%d" % i, res, [IntVal("q%d" % i)]))
+    for i, res in enumerate(RES_DIM):
+        funcs.append(Func("rd%d" % i, res, [DimArg("dq%d" % i)]))
+    if cxx:
+        funcs.append(Func("rvec", "vecres", [IntVal("qv")]))
     funcs += generic_funcs(cxx, "")
     if cxx:
         funcs.append(Func("dstr", "int", [StringIn("ds"), CstrOut("dc"), DefInt("e1", 5), DefInt("e2", 6)]))
+        # template x string: instantiations reached through the generic name, each with a bufferify clone
+        funcs.append(Func("tstr", "void", [TplArg("tv"), StringIn("ts"), CstrIn("tc")]))
         funcs.append(Func("ovs", "void", [StringIn("os1")], overload_of="s"))
         funcs.append(Func("ovs", "void", [IntVal("oi"), CstrIn("os2")], overload_of="is"))
     if cxx:
@@ -458,8 +686,12 @@ def yaml_text(lib, funcs, cxx, options):
     for f in funcs:
         rt = "void" if f.res == "void" else RESULTS[f.res][0]
         attrs = "" if f.res == "void" else RESULTS[f.res][1]
+        if "{dim}" in attrs:
+            attrs = attrs.format(dim=[a.n for a in f.args if isinstance(a, DimArg)][0])
         decl = "%s %s(%s)%s" % (rt, f.name, ", ".join(a.yaml() for a in f.args) if f.args or cxx else "void", attrs)
         dd = {"decl": decl}
+        if f.is_template():
+            dd = {"decl": "template<typename T> " + decl, "cxx_template": [{"instantiation": "<int>"}, {"instantiation": "<double>"}]}
         if f.generic_list():
             dd["fortran_generic"] = f.generic_list()
         decls.append(dd)
@@ -471,21 +703,31 @@ def yaml_text(lib, funcs, cxx, options):
 def lib_sources(lib, funcs, cxx):
     hdr = ["#ifndef SUBJ_H", "#define SUBJ_H"]
     if cxx:
-        hdr += ["#include <string>"]
+        hdr += ["#include <string>", "#include <vector>"]
     else:
         hdr += ["#include <stdbool.h>"]
     src = ['#include "%s"' % (lib + (".hpp" if cxx else ".h")), "#include <stdio.h>", "#include <string.h>"]
     src.append("static const char *RS[] = {%s};" % ", ".join('"%s"' % s for s in RES_STR))
+    src.append("static int RA[] = {%s};" % ", ".join(map(str, RA)))
+    src.append("static const int VS[] = {%s};" % ", ".join(map(str, VSZ)))
     if cxx:
         src.append("static const std::string RSS[] = {%s};" % ", ".join('std::string("%s")' % s for s in RES_STR))
+    if cxx:
+        src += ['static void pv_(const char *n, int v) { printf("%si:%d", n, v); }',
+                'static void pv_(const char *n, double v) { printf("%sd:%.17g", n, v); }',
+                'static const char *tn_(int) { return "i"; }', 'static const char *tn_(double) { return "d"; }']
     for idx, f in enumerate(funcs):
         rt = "void" if f.res == "void" else RESULTS[f.res][2]
         params = ", ".join(a.cparam("cxx" if cxx else "c") for a in f.args) or ("" if cxx else "void")
-        hdr.append("%s %s(%s);" % (rt, f.name, params))
+        tpl = "template<typename T> " if f.is_template() else ""
+        hdr.append("%s%s %s(%s);" % (tpl, rt, f.name, params))
         params_def = re.sub(r" = -?\d+", "", params)
-        src.append("%s %s(%s)\n{" % (rt, f.name, params_def))
+        src.append("%s%s %s(%s)\n{" % (tpl, rt, f.name, params_def))
         src.append("  static int cnt = -1; cnt++;")
-        src.append('  printf("L %s%s");' % (f.name, ("/" + f.overload_of) if f.overload_of else ""))
+        if f.is_template():
+            src.append('  printf("L %s/%%s", tn_(%s));' % (f.name, [a.n for a in f.args if isinstance(a, TplArg)][0]))
+        else:
+            src.append('  printf("L %s%s");' % (f.name, ("/" + f.overload_of) if f.overload_of else ""))
         for a in f.args:
             for st in a.body("cxx" if cxx else "c"):
                 src.append("  " + st)
@@ -493,6 +735,9 @@ def lib_sources(lib, funcs, cxx):
         if f.res != "void":
             src.append("  return %s;" % RESULTS[f.res][3])
         src.append("}")
+        if f.is_template():
+            for t in ("int", "double"):
+                src.append("template %s %s<%s>(%s);" % (rt, f.name, t, params_def.replace("T ", t + " ", 1)))
     hdr.append("#endif")
     return "\n".join(hdr) + "\n", "\n".join(src) + "\n"
 
@@ -580,7 +825,8 @@ def driver_source(lib, funcs):
         if f.res == "void":
             body.append("call %s(%s)" % (f.name, actuals))
         else:
-            body.append("rv_%s = %s(%s)" % (f.res, f.name, actuals))
+            op = RESULTS[f.res][8] if len(RESULTS[f.res]) > 8 else "="
+            body.append("rv_%s %s %s(%s)" % (f.res, op, f.name, actuals))
         body.append("write(*,'(A)', advance='no') 'F %s'" % f.name)
         if f.res != "void":
             body.append(RESULTS[f.res][5].replace("rv)", "rv_%s)" % f.res))
@@ -612,7 +858,7 @@ def expected_trace(funcs):
                 lt += ["%s=i:%d" % (a.n, a.default)]   # C++ supplies the default value
             if isinstance(a, HiddenOut):
                 lt += ["%s=hidden" % a.n]
-        out.append(" ".join(["L %s%s" % (f.name, ("/" + f.overload_of) if f.overload_of else "")] + lt))
+        out.append(" ".join(["L %s%s" % (f.name, f.tagfor(r))] + lt))
         fr = [RESULTS[f.res][6](cnt)] if f.res != "void" else []
         out.append(" ".join(["F %s" % f.name] + fr + ft))
     return out
@@ -707,9 +953,13 @@ def check_library(ctx, work, tag, lib, funcs, cxx, configs, workers=8):
         d = os.path.join(work, "%s-%s-%d%d" % (tag, "cxx" if cxx else "c", int(cfi), int(dbg)))
         jobs.append((d, cfi, dbg))
 
+    funcs_cfi = [f for f in funcs if f.cfi_ok()]
+    exp_cfi = expected_trace(funcs_cfi)
+    all_funcs, exp_all = funcs, exp
+
     def one(job):
         d, cfi, dbg = job
-        y, rc, out = generate(d, lib, funcs, cxx, {"F_CFI": bool(cfi), "debug": bool(dbg)})
+        y, rc, out = generate(d, lib, funcs_cfi if cfi else all_funcs, cxx, {"F_CFI": bool(cfi), "debug": bool(dbg)})
         if rc != 0:
             return job, y, "shroud", False, out[-2000:]
         stage, ok, out = build_and_run(d, lib, cxx, san)
@@ -729,6 +979,8 @@ def check_library(ctx, work, tag, lib, funcs, cxx, configs, workers=8):
                 {"yaml": y, "config": cfgname, "function": m.group(0) if m else None, "values": None, "output": (out or "")[-1500:]})
             continue
         got = [l for l in out.split("\n") if l.startswith("L ") or l.startswith("F ")]
+        exp = exp_cfi if cfi else exp_all
+        funcs = funcs_cfi if cfi else all_funcs
         df = first_diff(exp, got)
         if df is None and ok:
             ctx.nontrivial((tag, cxx, cfi, dbg))
